@@ -4,7 +4,7 @@ from .. import lib, runner, elab
 
 PROP = "C19"
 THEOREMS = ["Mux.prepare_spec", "Mux.original_prepare_diverges"]
-IMPORTS = ["SocVerif"]
+IMPORTS = ["SocVerif.Shadow"]
 
 
 def run(rep, tier):
